@@ -7,7 +7,9 @@
    (compressed member sizes, flush observations): every theorem holds for ALL of them, i.e. whatever the
    compressor does.  [Ok] = the Go call returned without error. *)
 From Coq Require Import List NArith ZArith Bool.
-From SV Require Import Gen.Consts Model.EsgzFooter Model.EsgzWriter Proofs.EsgzFooter Proofs.EsgzWriter.
+From Coq Require Import String Permutation.
+From SV Require Import Gen.Consts Model.EsgzFooter Model.EsgzWriter Model.EsgzBuild
+     Proofs.EsgzFooter Proofs.EsgzWriter Proofs.EsgzBuild.
 Import ListNotations.
 Open Scope N_scope.
 
@@ -17,7 +19,7 @@ Open Scope N_scope.
    non-negative int64 offset. *)
 Theorem C03_footer_roundtrip_gzip :
   forall off, off < 2 ^ 63 ->
-    length (gzip_footer_bytes off) = estargz_footer_size
+    List.length (gzip_footer_bytes off) = estargz_footer_size
     /\ parse_gzip_footer (gzip_footer_bytes off) = POk (Z.of_N off) (Z.of_N off) 0.
 Proof. intros off H. split; [exact (gzip_footer_length off)|exact (gzip_footer_roundtrip off H)]. Qed.
 Print Assumptions C03_footer_roundtrip_gzip.
@@ -25,7 +27,7 @@ Print Assumptions C03_footer_roundtrip_gzip.
 (* legacy stargz footer (47 bytes) *)
 Theorem C03_footer_roundtrip_legacy :
   forall off, off < 2 ^ 63 ->
-    length (legacy_footer_bytes off) = estargz_legacy_footer_size
+    List.length (legacy_footer_bytes off) = estargz_legacy_footer_size
     /\ parse_legacy_footer (legacy_footer_bytes off) = POk (Z.of_N off) (Z.of_N off) 0.
 Proof. intros off H. split; [exact (legacy_footer_length off)|exact (legacy_footer_roundtrip off H)]. Qed.
 Print Assumptions C03_footer_roundtrip_legacy.
@@ -36,7 +38,7 @@ Print Assumptions C03_footer_roundtrip_legacy.
 Theorem C03_footer_roundtrip_zstd :
   forall off raw comp, off + 8 < 2 ^ 63 -> comp < 2 ^ 63 ->
     zstd_footer_frame off raw comp = skippable_magic ++ [40; 0; 0; 0] ++ zstd_footer_bytes (off + 8) raw comp
-    /\ length (zstd_footer_bytes (off + 8) raw comp) = zstd_footer_size
+    /\ List.length (zstd_footer_bytes (off + 8) raw comp) = zstd_footer_size
     /\ parse_zstd_footer (zstd_footer_bytes (off + 8) raw comp) = POk (Z.of_N off) (Z.of_N (off + 8)) (Z.of_N comp).
 Proof.
   intros off raw comp H1 H2. split; [exact (proj1 (zstd_footer_frame_shape off raw comp))|].
@@ -46,18 +48,18 @@ Print Assumptions C03_footer_roundtrip_zstd.
 
 (* external TOC: constant 46-byte footer that parses to "TOC is elsewhere, payload = whole blob" *)
 Theorem C03_footer_roundtrip_exttoc :
-  length exttoc_footer_bytes = exttoc_footer_size /\ parse_exttoc_footer exttoc_footer_bytes = POk (-1) (-1) 0.
+  List.length exttoc_footer_bytes = exttoc_footer_size /\ parse_exttoc_footer exttoc_footer_bytes = POk (-1) (-1) 0.
 Proof. split; [exact exttoc_footer_length|exact exttoc_footer_roundtrip]. Qed.
 Print Assumptions C03_footer_roundtrip_exttoc.
 
 (* the codecs the footers rest on *)
 Theorem C03_hex16_codec :
-  forall off, off < 2 ^ 63 -> length (hexd 16 off) = 16%nat /\ parse_int16 (hexd 16 off) = Some (Z.of_N off).
+  forall off, off < 2 ^ 63 -> List.length (hexd 16 off) = 16%nat /\ parse_int16 (hexd 16 off) = Some (Z.of_N off).
 Proof. intros off H. split; [exact (hexd_length 16 off)|exact (parse_int16_hexd off H)]. Qed.
 Print Assumptions C03_hex16_codec.
 
 Theorem C03_le64_codec :
-  forall n, n < 2 ^ 64 -> length (le_bytes 8 n) = 8%nat /\ le_val (le_bytes 8 n) = n.
+  forall n, n < 2 ^ 64 -> List.length (le_bytes 8 n) = 8%nat /\ le_val (le_bytes 8 n) = n.
 Proof. intros n H. split; [exact (le_bytes_length 8 n)|exact (le_val_le_bytes8 n H)]. Qed.
 Print Assumptions C03_le64_codec.
 
@@ -66,7 +68,7 @@ Print Assumptions C03_le64_codec.
 (* divideEntries is an order-preserving partition for EVERY worker count (also when unitSize = 0), and the
    single-part case of MinChunkSize > 0 is one too. *)
 Theorem C03_divide_preserves_order :
-  forall es k, concat (divide es k) = es /\ divide es k <> [].
+  forall es k, List.concat (divide es k) = es /\ divide es k <> [].
 Proof. intros es k. split; [exact (divide_concat es k)|exact (divide_nonempty es k)]. Qed.
 Print Assumptions C03_divide_preserves_order.
 
@@ -118,8 +120,8 @@ Theorem C03_toc_complete_and_tiling :
     build_blob i m chunk minc tlen es cs fs = Ok b ->
     let o := mkO chunk minc match m with MLossless => true | _ => false end in
     map strip (b_toc b) = flat_map (toc_spec o) es
-    /\ forall e, N.of_nat (length (content i e)) = data_size e ->
-         concat (map (chunk_bytes i e) (chunks (eff_chunk o) (data_size e))) = content i e.
+    /\ forall e, N.of_nat (List.length (content i e)) = data_size e ->
+         List.concat (map (chunk_bytes i e) (chunks (eff_chunk o) (data_size e))) = content i e.
 Proof.
   intros i m chunk minc tlen es cs fs b H o. split; [exact (build_toc_complete i m chunk minc tlen es cs fs b H)|].
   intros e He. exact (spec_chunks_tile i o e He).
@@ -130,9 +132,77 @@ Print Assumptions C03_toc_complete_and_tiling.
    call (holds for the code after C03-fix-1, which the model follows), so every theorem above also covers a
    Writer fed by several calls, MinChunkSize > 0 included. *)
 Theorem C03_append_calls_compose :
-  forall i o calls s, append_calls i o s calls = run_entries i o s (concat calls).
+  forall i o calls s, append_calls i o s calls = run_entries i o s (List.concat calls).
 Proof. intros i o calls s. exact (append_calls_concat i o calls s). Qed.
 Print Assumptions C03_append_calls_compose.
+
+(* The uncompressed-byte counter (what Build reports as UncompressedSize for the payload part, and what
+   innerOffset is measured with) is the List.length of the decompressed payload, for every mode and worker count. *)
+Theorem C03_uncompressed_counter :
+  forall i m chunk minc tlen es cs fs b, Forall (wf_entry i) es ->
+    (m = MLossless -> 0 < tlen -> N.of_nat (List.length (trail i)) = tlen) ->
+    build_blob i m chunk minc tlen es cs fs = Ok b ->
+    b_unc b = N.of_nat (List.length (payloads (b_members b))).
+Proof. intros i m chunk minc tlen es cs fs b W T H. exact (build_unc i m chunk minc tlen es cs fs b W T H). Qed.
+Print Assumptions C03_uncompressed_counter.
+
+(* ---------------- estargz.Build end to end, from the raw input tar ---------------- *)
+
+(* sortEntries (own-C14's model: importTar + prioritized ordering + landmark insertion) composed with the
+   parallel writers.  For every input tar [t] (any duplicates, any spellings, old landmarks, old TOC entries),
+   prioritized list, allow flag, worker count, chunk sizes and oracle values, a successful Build decompresses to
+       [prioritized group] ++ landmark ++ [rest]
+   where group ++ rest is a permutation of [import t]; [import t] keeps an entry of the input iff its cleaned
+   name is not a landmark name and no LATER entry has the same cleaned name (import_spec: the last duplicate
+   wins), with pairwise different cleaned names; entries named stargz.index.json are not serialised ([ser]);
+   exactly one landmark is added; and the uncompressed counter is the List.length of that stream. *)
+Theorem C03_build_end_to_end_decompresses :
+  forall i att t prio allow lmid lmh k chunk minc cs fs b,
+    (forall se, In se t -> wf_entry i (went att se)) -> wf_entry i (wland lmid lmh) ->
+    build_from_tar i att t prio allow lmid lmh k chunk minc cs fs = Ok b ->
+    exists items missed,
+      S.sort_entries t prio allow = S.SOk items missed
+      /\ payloads (b_members b)
+         = ser i (map (went att) (SP.group_of items)) ++ ser i [wland lmid lmh] ++ ser i (map (went att) (SP.rest_of items))
+      /\ Permutation (SP.group_of items ++ SP.rest_of items) (S.import t)
+      /\ S.import t = SP.import_spec t
+      /\ NoDup (SP.keys (S.import t))
+      /\ (forall se, In se (S.import t) -> In se t /\ S.is_landmark (S.key se) = false)
+      /\ b_unc b = N.of_nat (List.length (payloads (b_members b))).
+Proof.
+  intros i att t prio allow lmid lmh k chunk minc cs fs b W WL H.
+  exact (build_from_tar_payload i att t prio allow lmid lmh k chunk minc cs fs b W WL H).
+Qed.
+Print Assumptions C03_build_end_to_end_decompresses.
+
+(* Without prioritized files: the (no-prefetch) landmark, then the surviving entries in input order. *)
+Theorem C03_build_end_to_end_no_prioritized :
+  forall i att t allow lmid lmh k chunk minc cs fs b,
+    (forall se, In se t -> wf_entry i (went att se)) -> wf_entry i (wland lmid lmh) ->
+    build_from_tar i att t [] allow lmid lmh k chunk minc cs fs = Ok b ->
+    payloads (b_members b) = ser i [wland lmid lmh] ++ ser i (map (went att) (S.import t)).
+Proof.
+  intros i att t allow lmid lmh k chunk minc cs fs b W WL H.
+  exact (build_from_tar_noprio i att t allow lmid lmh k chunk minc cs fs b W WL H).
+Qed.
+Print Assumptions C03_build_end_to_end_no_prioritized.
+
+(* ... and the index of that blob: every offset-carrying TOC entry belongs to the landmark or to a SURVIVING
+   input entry (never to a superseded duplicate or an old landmark) and is located as in
+   C03_self_index_consistent. *)
+Theorem C03_build_end_to_end_self_index :
+  forall i att t prio allow lmid lmh k chunk minc cs fs b,
+    (forall se, In se t -> wf_entry i (went att se)) -> wf_entry i (wland lmid lmh) ->
+    build_from_tar i att t prio allow lmid lmh k chunk minc cs fs = Ok b ->
+    b_total b = csum (b_members b) /\
+    forall x, In x (b_toc b) -> is_data x = true ->
+      exists e, (e = wland lmid lmh \/ exists se, In se (S.import t) /\ e = went att se)
+                /\ e_id e = t_id x /\ e_kind e = KReg /\ located i (b_members b) e x.
+Proof.
+  intros i att t prio allow lmid lmh k chunk minc cs fs b W WL H.
+  exact (build_from_tar_index i att t prio allow lmid lmh k chunk minc cs fs b W WL H).
+Qed.
+Print Assumptions C03_build_end_to_end_self_index.
 
 (* ---------------- non-vacuity ---------------- *)
 
@@ -142,8 +212,8 @@ Print Assumptions C03_append_calls_compose.
 Example C03_nonvacuous_build :
   Forall (wf_entry ex_io) ex_entries /\
   match build_blob ex_io (MBuild 3) 512 0 0 ex_entries [100; 101; 102; 103; 104; 105; 106; 107] [] with
-  | Ok b => (length (b_members b) =? 7)%nat && existsb (fun t => is_data t && (0 <? t_off t) && (0 <? t_coff t)) (b_toc b)
-            && (b_total b =? 721) && (N.of_nat (length (payloads (b_members b))) =? 512 * 12)
+  | Ok b => (List.length (b_members b) =? 7)%nat && existsb (fun t => is_data t && (0 <? t_off t) && (0 <? t_coff t)) (b_toc b)
+            && (b_total b =? 721) && (N.of_nat (List.length (payloads (b_members b))) =? 512 * 12)
   | _ => false
   end = true.
 Proof. split; [exact ex_wf|vm_compute; reflexivity]. Qed.
@@ -151,7 +221,7 @@ Proof. split; [exact ex_wf|vm_compute; reflexivity]. Qed.
 (* MinChunkSize > 0: several files share one member; a TOC entry with innerOffset > 0 exists and is located. *)
 Example C03_nonvacuous_minchunk :
   match build_blob ex_io MWriter 512 2000 0 ex_entries [300; 400; 500] [10; 700; 900; 2500; 10] with
-  | Ok b => existsb (fun t => is_data t && (0 <? t_inner t)) (b_toc b) && (1 <? length (b_members b))%nat
+  | Ok b => existsb (fun t => is_data t && (0 <? t_inner t)) (b_toc b) && (1 <? List.length (b_members b))%nat
   | _ => false
   end = true.
 Proof. vm_compute; reflexivity. Qed.
@@ -160,7 +230,19 @@ Proof. vm_compute; reflexivity. Qed.
 Example C03_nonvacuous_lossless :
   build_blob ex_io MLossless 512 0 1024 ex_entries [1; 2; 3; 4; 5; 6; 7; 8] [] = Err
   /\ match build_blob ex_io MLossless 512 0 1024 (firstn 4 ex_entries) [1; 2; 3; 4; 5; 6; 7; 8] [] with
-     | Ok b => N.of_nat (length (payloads (b_members b))) =? 512 * 11 + 1024
+     | Ok b => N.of_nat (List.length (payloads (b_members b))) =? 512 * 11 + 1024
      | _ => false
      end = true.
 Proof. split; vm_compute; reflexivity. Qed.
+
+(* Build end to end on a tar with one path under three spellings, an old landmark, an old TOC entry and a
+   prioritized nested file: hypotheses hold, the build succeeds with 3 workers, the directory is pulled in front,
+   only the LAST spelling of a/b.txt (id 6) is indexed, the old landmark (id 3) and the superseded ids 0, 2 are not. *)
+Example C03_nonvacuous_end_to_end :
+  (forall se, In se ex_tar -> wf_entry ex_io (went ex_att se)) /\ wf_entry ex_io (wland 7 512) /\
+  match build_from_tar ex_io ex_att ex_tar ["d/f"%string] false 7 512 3 512 0 [100; 101; 102; 103; 104; 105; 106; 107; 108] [] with
+  | Ok b => bytes_eqb (map t_id (b_toc b)) [1; 4; 4; 4; 7; 6; 6] && (b_total b =? 936)
+            && (N.of_nat (List.length (payloads (b_members b))) =? 5120) && (b_unc b =? 5120)
+  | _ => false
+  end = true.
+Proof. split; [exact ex_tar_wf|split; [vm_compute; repeat split; reflexivity|vm_compute; reflexivity]]. Qed.
